@@ -61,11 +61,9 @@ def is_caller_env(prog, top, f, operand):
     return False
 
 
-_PURE = {}
-
-
 def env_pure(prog, h, stack=()):
     """a resolved workspace helper that receives an env but never hands it on (mutably) nor writes it"""
+    _PURE = prog.__dict__.setdefault("_c04_pure", {})  # per-program memo
     if h.id in _PURE:
         return _PURE[h.id]
     if h.id in stack or not env_params(h):
